@@ -159,8 +159,6 @@ def gen_copc(repo):
             "resolution to levels": "level_max=max(1,ceil(log2(self.copc_info.spacing/resolution))+1)level=range(0,level_max)",
             "int level": "ifisinstance(level,int):level=range(level,level+1)",
             "2-D boxes": "bounds=bounds.ensure_3d(self.header.mins,self.header.maxs)",
-            "clip lo": "MINS=np.clip(np.round((bounds.mins-self.header.offsets)/self.header.scales),i32.min,i32.max).astype(np.int32)",
-            "clip hi": "MAXS=np.clip(np.round((bounds.maxs-self.header.offsets)/self.header.scales),i32.min,i32.max).astype(np.int32)",
             "x": "x_keep=(MINS[0]<=points.X)&(points.X<=MAXS[0])",
             "y": "y_keep=(MINS[1]<=points.Y)&(points.Y<=MAXS[1])",
             "z": "z_keep=(MINS[2]<=points.Z)&(points.Z<=MAXS[2])",
@@ -171,9 +169,43 @@ def gen_copc(repo):
             if frag not in src:
                 raise Untranslatable(f"CopcReader.query: {what}: `{frag}` not found")
         keep = None
+        clips = {}
         for n in ast.walk(f):
             if isinstance(n, ast.Assign) and _norm(n.targets[0]) == "x_keep":
                 keep = n.value
+            if isinstance(n, ast.Assign) and _norm(n.targets[0]) in ("MINS", "MAXS"):
+                clips[_norm(n.targets[0])] = n.value
+        # MINS = np.clip(np.round((bounds.mins - offsets) / scales), <lo>, <hi>).astype(np.<int type>)
+        bounds_of = {}
+        for name, attr in (("MINS", "mins"), ("MAXS", "maxs")):
+            v = clips.get(name)
+            if not (isinstance(v, ast.Call) and _norm(v.func).endswith(".astype") and len(v.args) == 1
+                    and isinstance(v.func.value, ast.Call) and _norm(v.func.value.func) == "np.clip"
+                    and len(v.func.value.args) == 3 and not v.func.value.keywords):
+                raise Untranslatable(f"CopcReader.query: {name} is not np.clip(...).astype(...)")
+            inner, lo_e, hi_e = v.func.value.args
+            if _norm(inner) != f"np.round((bounds.{attr}-self.header.offsets)/self.header.scales)":
+                raise Untranslatable(f"CopcReader.query: {name}: rounded quotient `{_norm(inner)}`")
+            cfn = Fn({}, {"i32.min": -2 ** 31, "i32.max": 2 ** 31 - 1})
+
+            class _C(ast.NodeTransformer):
+                def visit_Attribute(self, node):
+                    t = ast.unparse(node)
+                    if t in ("i32.min", "i32.max"):
+                        return ast.Constant(value=-2 ** 31 if t == "i32.min" else 2 ** 31 - 1)
+                    return node
+            lo_v = eval(compile(ast.Expression(body=ast.fix_missing_locations(_C().visit(lo_e))), "<clip>", "eval"), {"__builtins__": {}})
+            hi_v = eval(compile(ast.Expression(body=ast.fix_missing_locations(_C().visit(hi_e))), "<clip>", "eval"), {"__builtins__": {}})
+            if not (isinstance(lo_v, int) and isinstance(hi_v, int)):
+                raise Untranslatable(f"CopcReader.query: {name}: clip bounds are not integers")
+            ty = _norm(v.args[0])
+            rng = {"np.int32": (-2 ** 31, 2 ** 31 - 1), "np.int64": (-2 ** 63, 2 ** 63 - 1)}.get(ty)
+            if rng is None or lo_v < rng[0] or hi_v > rng[1]:
+                raise Untranslatable(f"CopcReader.query: {name}: clip bounds [{lo_v}, {hi_v}] do not fit {ty}")
+            bounds_of[name] = (lo_v, hi_v)
+        if bounds_of["MINS"] != bounds_of["MAXS"]:
+            raise Untranslatable("CopcReader.query: MINS and MAXS are clipped differently")
+        clip_lo, clip_hi = bounds_of["MINS"]
         inner = _Subst({"MINS[0]": "lo", "MAXS[0]": "hi", "points.X": "p"}).visit(keep)
         v, t = Fn({"lo": "Z", "hi": "Z", "p": "Z"}, {}).expr(inner)
         sq = parse(repo, "laspy/copc.py")
@@ -183,7 +215,8 @@ def gen_copc(repo):
                 _norm(h.body[-1]) != "returnself.query(bounds=None,level=level)":
             raise Untranslatable("spatial_query / level_query shape")
         return (f"Definition gen_keep1 (lo hi p : Z) : bool := {v}.\n"
-                "Definition gen_i32_min : Z := (-2147483648).\nDefinition gen_i32_max : Z := 2147483647.\n")
+                "Definition gen_i32_min : Z := (-2147483648).\nDefinition gen_i32_max : Z := 2147483647.\n"
+                f"Definition gen_clip_lo : Z := {py2v.z(clip_lo)}.\nDefinition gen_clip_hi : Z := {py2v.z(clip_hi)}.\n")
     o.add("gen_query", query)
 
     # ---- grouping of contiguous chunks -----------------------------------------------------------------------
